@@ -522,26 +522,49 @@ func (fr *Frame) enterLoop(order []*ssa.BasicBlock, h *ssa.BasicBlock, ins []edg
 	}
 	oldAlloc := u.heapCur(pre, "$alloc")
 	oldClock := u.heapCur(pre, "$clock")
+	var rowCells [][2]string
 	for _, k := range sortedKeys(touched) {
 		srt := u.heapSort[k]
 		rowOK := !whole[k] && len(rows[k]) > 0 && strings.HasPrefix(srt, "(Array Int ")
+		var invRows []string
+		freshRows := false
 		if rowOK {
-			for idx := range rows[k] {
-				if !termOlderThan(idx, startFresh) {
+			for _, idx := range sortedKeys(rows[k]) {
+				switch {
+				case termOlderThan(idx, startFresh):
+					invRows = append(invRows, idx)
+				case u.freshRefs[idx]:
+					freshRows = true // a row of an object allocated inside the loop body
+				default:
 					rowOK = false
 				}
 			}
 		}
-		if rowOK {
+		if rowOK && !freshRows {
 			cellSort := arrayRange(srt)
-			for _, idx := range sortedKeys(rows[k]) {
+			for _, idx := range invRows {
 				c := u.enc.freshConst(k+"@row", cellSort)
 				u.heapStoreAt(st, k, idx, c)
+				rowCells = append(rowCells, [2]string{k, c})
 				if strings.HasPrefix(k, "MD$") {
 					ks := strings.TrimPrefix(k, "MD$")
 					u.assume(app(">=", u.card(ks, c), "0"))
 					u.assume(implies(eq(idx, "0"), eq(c, u.emptySet(ks))))
 				}
+			}
+		} else if rowOK {
+			// only rows of loop-allocated objects (and some loop-invariant rows) are written:
+			// every other pre-existing row keeps its value
+			preH := u.heapCur(pre, k)
+			nh := u.heapHavoc(st, k)
+			cond := "(<= r!f " + oldAlloc + ")"
+			for _, idx := range invRows {
+				cond = and(cond, not(eq("r!f", idx)))
+			}
+			u.assume(fmt.Sprintf("(forall ((r!f Int)) (! (=> %s (= (select %s r!f) (select %s r!f))) :pattern ((select %s r!f))))", cond, nh, preH, nh))
+			if strings.HasPrefix(k, "MD$") {
+				ks := strings.TrimPrefix(k, "MD$")
+				u.assume(fmt.Sprintf("(forall ((r!f Int)) (! (>= (%s (select %s r!f)) 0) :pattern ((select %s r!f))))", u.enc.declFun("card$"+ks, []string{"(Array " + ks + " Bool)"}, "Int"), nh, nh))
 			}
 		} else {
 			u.heapHavoc(st, k)
@@ -550,8 +573,24 @@ func (fr *Frame) enterLoop(order []*ssa.BasicBlock, h *ssa.BasicBlock, ins []edg
 	if touched["$alloc"] {
 		u.assume(app(">=", u.heapCur(st, "$alloc"), oldAlloc))
 	}
+	u.flushBounds(st)
 	if touched["$clock"] {
 		u.assume(app(">=", u.heapCur(st, "$clock"), oldClock))
+	}
+	for _, rc := range rowCells {
+		alloc := u.heapCur(st, "$alloc")
+		switch u.heapPtr[rc[0]] {
+		case "cell":
+			u.assume(app("<=", rc[1], alloc))
+		case "slicecell":
+			u.assume(app("<=", app("sl_base", rc[1]), alloc))
+		case "mapval", "arr":
+			ks := arrayDomain(arrayRange(u.heapSort[rc[0]]))
+			u.assume(fmt.Sprintf("(forall ((k!b %s)) (! (<= (select %s k!b) %s) :pattern ((select %s k!b))))", ks, rc[1], alloc, rc[1]))
+		case "slicemapval", "slicearr":
+			ks := arrayDomain(arrayRange(u.heapSort[rc[0]]))
+			u.assume(fmt.Sprintf("(forall ((k!b %s)) (! (<= (sl_base (select %s k!b)) %s) :pattern ((select %s k!b))))", ks, rc[1], alloc, rc[1]))
+		}
 	}
 	lc := &loopCtx{header: h, ordinal: ord, phiVals: map[*ssa.Phi]Val{}}
 	for _, in := range h.Instrs {
@@ -817,7 +856,8 @@ func (fr *Frame) safeNonNil(st *State, p Val, pos token.Pos, desc string) {
 func (fr *Frame) execAlloc(st *State, i *ssa.Alloc) {
 	u := fr.u
 	t := i.Type().Underlying().(*types.Pointer).Elem()
-	if !i.Heap {
+	_, isArr := t.Underlying().(*types.Array)
+	if !i.Heap && !isArr {
 		// non-escaping local: its own one-cell heap
 		name := fmt.Sprintf("L$%s%s", fr.prefix, i.Name())
 		if fr.prefix == "" {
@@ -1111,7 +1151,7 @@ func (fr *Frame) execSlice(st *State, i *ssa.Slice) {
 			hi = n
 		}
 		if x.Loc != nil {
-			u.unsup("slicing a sub-located array")
+			u.unsup("slicing a sub-located array in %s at %s", fr.fn, u.cx.fset.Position(i.Pos()))
 		}
 		fr.safe(st, and(app("<=", "0", lo), app("<=", lo, hi), app("<=", hi, n)), i.Pos(), "slice", "array slice bounds in range")
 		fr.define(i, Val{T: app("mk_slice", x.T, lo, app("-", hi, lo), app("-", n, lo))})
@@ -1140,7 +1180,7 @@ func (fr *Frame) execConvert(st *State, i *ssa.Convert) {
 		// truncation toward zero
 		fr.define(i, Val{T: fmt.Sprintf("(ite (>= %s 0.0) (to_int %s) (- (to_int (- %s))))", x.T, x.T, x.T)})
 	case from == "Str" && to == "Slice":
-		// []byte(s) / []rune(s): fresh slice with uninterpreted content
+		// []byte(s) / []rune(s): fresh slice; bytes determined by the string (str_of_bytes is its inverse view)
 		r := u.newRef(st)
 		el := i.Type().Underlying().(*types.Slice).Elem()
 		isRune := false
@@ -1153,29 +1193,36 @@ func (fr *Frame) execConvert(st *State, i *ssa.Convert) {
 			ln = app(f, x.T)
 			u.assume(and(app("<=", "0", ln), app("<=", ln, app("str_len", x.T)), implies(app(">", app("str_len", x.T), "0"), app(">", ln, "0")),
 				app("<=", app("str_len", x.T), app("*", "4", ln))))
+			u.note("[]rune(string): contents uninterpreted, capacity arbitrary >= length")
 		} else {
 			ln = app("str_len", x.T)
 		}
 		cp := u.enc.freshConst("cap", "Int")
 		u.assume(app(">=", cp, ln))
+		h := u.arrHeap(el)
+		row := u.enc.freshConst("bytesrow", "(Array Int Int)")
+		u.heapStoreAt(st, h, r, row)
+		if !isRune {
+			f := u.strOfBytesFn()
+			u.assume(eq(app(f, row, "0", ln), x.T))
+		}
 		fr.define(i, Val{T: app("mk_slice", r, "0", ln, cp)})
-		u.note("string -> slice conversion: contents uninterpreted, capacity arbitrary >= length")
 	case from == "Slice" && to == "Str":
 		el := i.X.Type().Underlying().(*types.Slice).Elem()
 		isRune := false
 		if b, ok := el.Underlying().(*types.Basic); ok && b.Kind() == types.Int32 {
 			isRune = true
 		}
-		s := u.enc.freshConst("strconv", "Str")
 		if isRune {
+			s := u.enc.freshConst("strconv", "Str")
 			f := u.enc.declFun("str_nrunes", []string{"Str"}, "Int")
 			u.assume(eq(app(f, s), app("sl_len", x.T)))
 			u.assume(and(app("<=", app("sl_len", x.T), app("str_len", s)), app("<=", app("str_len", s), app("*", "4", app("sl_len", x.T)))))
+			fr.define(i, Val{T: s})
+			u.note("string([]rune): contents uninterpreted")
 		} else {
-			u.assume(eq(app("str_len", s), app("sl_len", x.T)))
+			fr.define(i, Val{T: u.strOfBytes(st, x.T, el)})
 		}
-		fr.define(i, Val{T: s})
-		u.note("slice -> string conversion: contents uninterpreted")
 	case from == "Int" && to == "Str":
 		f := u.enc.declFun("str_of_rune", []string{"Int"}, "Str")
 		fr.define(i, Val{T: app(f, x.T)})
@@ -1395,4 +1442,20 @@ func (fr *Frame) runDefers(st *State) {
 		*st = *m
 		st.guard = g
 	}
+}
+
+// strOfBytes: the string value of a byte slice: an uninterpreted function of the row contents, offset and length.
+func (u *Unit) strOfBytes(st *State, sl string, el types.Type) string {
+	h := u.arrHeap(el)
+	f := u.strOfBytesFn()
+	t := app(f, sel(u.heapCur(st, h), app("sl_base", sl)), app("sl_off", sl), app("sl_len", sl))
+	return t
+}
+
+func (u *Unit) strOfBytesFn() string {
+	if !u.enc.declared["str_of_bytes"] {
+		u.enc.declFun("str_of_bytes", []string{"(Array Int Int)", "Int", "Int"}, "Str")
+		u.enc.axioms = append(u.enc.axioms, "(forall ((r (Array Int Int)) (o Int) (n Int)) (! (=> (>= n 0) (= (str_len (str_of_bytes r o n)) n)) :pattern ((str_of_bytes r o n))))")
+	}
+	return "str_of_bytes"
 }
